@@ -21,6 +21,12 @@ def step(w, prev, cur, op, res):
             continue
         allowed = ('Pending', 'Ready') if j['update_id'] == 1 else ('Pending',)
         if j['state'] not in allowed:
+            live_parents = [p for p in cur.parents.get(k, []) if cur.jobs.get((k[0], p), {}).get('state') not in O.TERMINAL]
+            if live_parents:
+                # the known finding releases an uncommitted child when its LAST parent completes; a child that leaves Pending while
+                # another parent is still unfinished is something else ('!': never attributed to the known finding)
+                return [('!uncommitted-job-released-with-live-parent', 'jobs of an uncommitted update are never made ready, scheduled or completed',
+                         f'job {k} of uncommitted update {j["update_id"]} is {j["state"]} while parents {live_parents} are unfinished')]
             return [('uncommitted-job-left-pending', 'jobs of an uncommitted update are never made ready, scheduled or completed',
                      f'job {k} of uncommitted update {j["update_id"]} is {j["state"]}')]
         if j['attempt_id'] is not None or any(a[0] == b and a[1] == k[1] for a in cur.attempts):
